@@ -138,40 +138,28 @@ theorem listGet_refines {db : DB} (hw : db.LWF) (now : Int) (k : Bytes) (i : Int
   · simp [listGet, Spec.listGet, hk, listAt_of_get_other hg hv, lindex_nil, Res.err, Spec.er,
       purge_abs hw.wf.names]
 
-/-- D02: the key is missing (or not a live list) and a bound is negative, so the `bounds` CTE
-yields `LIMIT NULL` -/
-def rangeMissingNeg (a b : Int) : Bool := !rangePrecheck a b && (decide (a < 0) || decide (b < 0))
-
+/-- D02 (repaired): on a missing key the window is defined (the missing length counts as 0) and empty -/
 theorem listRange_missing {db : DB} {now : Int} {k : Bytes} {a b : Int}
-    (hk : db.liveKeyT k TList now = none) (hd : rangeMissingNeg a b = false) :
+    (hk : db.liveKeyT k TList now = none) :
     listRange db k a b now = .ok (.list []) db := by
   unfold listRange
   split
   · rfl
-  · rename_i hp
-    have hp' : rangePrecheck a b = false := by simpa using hp
-    simp only [hk, Option.bind_none]
-    have hnn : ¬ (a < 0 ∨ b < 0) := by
-      simpa [rangeMissingNeg, hp'] using hd
-    have ha : ¬ a < 0 := fun h => hnn (Or.inl h)
-    have hb : ¬ b < 0 := fun h => hnn (Or.inr h)
-    simp [rangeWindow, bound, ha, hb, sqlLimit, Res.ok]
+  · simp only [hk, Option.bind_none]
+    rw [Redka.Proofs.Index.rangeWindow_nil]
+    rfl
 
-theorem listRange_refines {db : DB} (hw : db.LWF) (now : Int) (k : Bytes) (a b : Int)
-    (hd1 : ∀ r, db.liveKeyT k TList now = some r →
-      rangeDeviates (listRows db r.id).length a b = false)
-    (hd2 : db.liveKeyT k TList now = none → rangeMissingNeg a b = false) :
+theorem listRange_refines {db : DB} (hw : db.LWF) (now : Int) (k : Bytes) (a b : Int) :
     Refines now (listRange db k a b now) (Spec.listRange (abs now db) k a b) := by
   unfold Refines
   rcases lholder hw.wf now k with ⟨_, hg, hk⟩ | ⟨_, _, _, hg, hk⟩ | ⟨r, h, _, ht, hg, hk⟩ |
     ⟨_, v, _, _, _, hg, hv, hk⟩
-  · simp [listRange_missing hk (hd2 hk), Spec.listRange, listAt_of_get_none hg, lrange_nil,
+  · simp [listRange_missing hk, Spec.listRange, listAt_of_get_none hg, lrange_nil,
       Spec.bytesList, Res.ok, Spec.ok, purge_abs hw.wf.names]
-  · simp [listRange_missing hk (hd2 hk), Spec.listRange, listAt_of_get_none hg, lrange_nil,
+  · simp [listRange_missing hk, Spec.listRange, listAt_of_get_none hg, lrange_nil,
       Spec.bytesList, Res.ok, Spec.ok, purge_abs hw.wf.names]
   · have hlen := hw.len_eq (findKey_mem h).1 ht
-    have hdev := hd1 r hk
-    have hmr := Redka.Props.C02.range_refines_partial (listRows db r.id) a b hdev
+    have hmr := Redka.Props.C02.range_refines (listRows db r.id) a b
     have hm : listRange db k a b now
         = .ok (.list ((modelRange (listRows db r.id) a b).map (fun r => .bytes r.elem))) db := by
       unfold listRange modelRange
@@ -182,7 +170,7 @@ theorem listRange_refines {db : DB} (hw : db.LWF) (now : Int) (k : Bytes) (a b :
     rw [hm, hmr]
     simp [Spec.listRange, listAt_of_get_list hg, elems, lrange_map, Spec.bytesList, Res.ok, Spec.ok,
       purge_abs hw.wf.names]
-  · simp [listRange_missing hk (hd2 hk), Spec.listRange, listAt_of_get_other hg hv, lrange_nil,
+  · simp [listRange_missing hk, Spec.listRange, listAt_of_get_other hg hv, lrange_nil,
       Spec.bytesList, Res.ok, Spec.ok, purge_abs hw.wf.names]
 
 /-! ### the generic write: an existing or a fresh list key gets a new table of rows -/
@@ -591,9 +579,7 @@ theorem modelTrimKeep_map {α β : Type} (f : α → β) (l : List α) (a b : In
     modelTrimKeep (l.map f) a b = (modelTrimKeep l a b).map f := by
   rw [modelTrimKeep_eq, modelTrimKeep_eq, List.length_map, sqlLimit_map]
 
-theorem listTrim_refines {db : DB} (hw : db.LWF) (now : Int) (k : Bytes) (a b : Int)
-    (hd : ∀ r, db.liveKeyT k TList now = some r → (listRows db r.id).length > 0 →
-      trimDeviates (listRows db r.id).length a b = false) :
+theorem listTrim_refines {db : DB} (hw : db.LWF) (now : Int) (k : Bytes) (a b : Int) :
     Refines now (update (fun d => listTrim d k a b now) db) (Spec.listTrim (abs now db) k a b) := by
   rcases lholder hw.wf now k with ⟨_, hg, hk⟩ | ⟨_, _, _, hg, hk⟩ | ⟨r, h, _, ht, hg, hk⟩ |
     ⟨_, v, _, _, _, hg, hv, hk⟩
@@ -607,8 +593,6 @@ theorem listTrim_refines {db : DB} (hw : db.LWF) (now : Int) (k : Bytes) (a b : 
       simp [Refines, update, listTrim, hk, hrows, Res.ok, Spec.listTrim, hg, hel, Spec.ok,
         Spec.ltrim, lrange_nil, purge_abs hw.wf.names]
     | cons row xs =>
-      have hpos : (listRows db r.id).length > 0 := by rw [hrows]; simp
-      have hdev := hd r hk hpos
       have hkeep_sub := modelTrimKeep_sublist (listRows db r.id) a b
       have hwin : rangeWindow r.len a b (listRows db r.id) = some (modelTrimKeep (listRows db r.id) a b) := by
         rw [hlen, rangeWindow_some, modelTrimKeep_eq]
@@ -624,7 +608,7 @@ theorem listTrim_refines {db : DB} (hw : db.LWF) (now : Int) (k : Bytes) (a b : 
           rw [filter_not_filter]
           simp only [Bool.not_not]
           rw [filter_mem_sublist hkeep_sub hsorted.nodup, ← modelTrimKeep_map,
-            Redka.Props.C02.trim_refines_partial _ a b (by rw [List.length_map]; exact hdev)]
+            Redka.Props.C02.trim_refines _ a b]
           rfl)
       have hne : (listRows db r.id).isEmpty = false := by rw [hrows]; rfl
       simp only [update, listTrim, hk, hne, Bool.false_eq_true, if_false, hwin, hS, Res.ok,
